@@ -10,7 +10,7 @@
 use std::borrow::Borrow;
 
 #[cfg(kani)]
-pub const CAP: usize = 12;
+pub const CAP: usize = 24;
 #[cfg(not(kani))]
 pub const CAP: usize = 40;
 
